@@ -688,8 +688,7 @@ func (nfs *Nfs) NFSPROC3_RENAME(args nfstypes.RENAME3args) nfstypes.RENAME3res {
 
 		// rename to itself?
 		if dipto == dipfrom && toinum == frominum {
-			reply.Status = nfstypes.NFS3_OK
-			op.Commit()
+			commitReply(op, &reply.Status)
 			done = true
 			break
 		}
